@@ -647,7 +647,13 @@ var solvers = []solverSpec{
 	}},
 }
 
+// at most this many solver processes at any time (the machine has 16 cores; oversubscription
+// turns fast proofs into timeouts)
+var solverSem = make(chan struct{}, 14)
+
 func runSolver(s solverSpec, ms int, script string, nchecks int, dir, tag string) ([]string, string) {
+	solverSem <- struct{}{}
+	defer func() { <-solverSem }()
 	f := filepath.Join(dir, tag+".smt2")
 	if strings.HasPrefix(s.name, "cvc5") {
 		var keep []string
